@@ -151,6 +151,22 @@ func TestC03_P_PathSelector(t *testing.T) {
 				}
 			}
 		}
+		if perturb == "none" && len(segs) > 0 && rapid.IntRange(0, 7).Draw(t, "suffix") == 0 {
+			// last segment replaced by a proper suffix / prefix of itself that is not an entry there
+			last := segs[len(segs)-1]
+			if len(last) > 1 {
+				k := rapid.IntRange(1, len(last)-1).Draw(t, "cut")
+				repl := last[k:]
+				if rapid.Bool().Draw(t, "prefixInstead") {
+					repl = last[:k]
+				}
+				if _, clash := nodes[len(nodes)-2].Kids[repl]; !clash && repl != "" && !strings.Contains(repl, "/") {
+					segs = append(append([]string{}, segs[:len(segs)-1]...), repl)
+					perturb = "suffix-of-entry"
+					exists = false
+				}
+			}
+		}
 		matchPath := false
 		if len(segs) == 0 {
 			matchPath = rapid.Bool().Draw(t, "matchPath")
